@@ -419,7 +419,7 @@ def run_property(pid, tier, seed, cfg, scratch, t0):
         for run, v in lst[: cfg.get("replays_per_signature", 2)]:
             path = write_replay(pid, run, v)
             reps[sig].append((run, v, path))
-            if not cfg.get("no_native_replay"):
+            if not cfg.get("no_native_replay") and not run.get("no_native"):
                 per_pkg.setdefault(run["pkg"], []).append((run["entry"], path))
     replay_log = ""
     for pkg, items in per_pkg.items():
@@ -432,7 +432,7 @@ def run_property(pid, tier, seed, cfg, scratch, t0):
     if not cfg.get("no_native_replay") and not all_vios:
         val_pkg = {}
         val_paths = []
-        for k, (run, vec) in enumerate(agg.get("vectors", [])[: cfg.get("validation_vectors", 12)]):
+        for k, (run, vec) in enumerate([rv for rv in agg.get("vectors", []) if not rv[0].get("no_native")][: cfg.get("validation_vectors", 12)]):
             vpath = os.path.join(scratch, "validate-%d.json" % k)
             with open(vpath, "w") as f:
                 json.dump({"property": pid, "entry": run["entry"], "kind": "validation", "label": "validation",
@@ -454,9 +454,9 @@ def run_property(pid, tier, seed, cfg, scratch, t0):
         for run, v, path in lst:
             r = replay_results.get(path)
             ok = False
-            if cfg.get("no_native_replay"):
+            if cfg.get("no_native_replay") or run.get("no_native"):
                 ok = True
-                r = "not-replayed"
+                r = "not-replayed (the harness depends on engine-side stubs that have no native counterpart)"
             elif v["kind"] == "cover":
                 ok = r is not None and r.startswith("NEVER-COVERED")
             elif r is None:
